@@ -1,0 +1,39 @@
+//go:build verif
+
+package expand
+
+import (
+	"strings"
+
+	"mvdan.cc/sh/v3/syntax"
+)
+
+// Exports of unexported helpers for the external verification harness (-tags verif only).
+
+func VerifAtoi(s string) int64 { return atoi(s) }
+
+func VerifBinArit(op syntax.BinAritOperator, x, y int) (int, error) { return binArit(op, x, y) }
+
+func VerifIntPow(a, b int) int { return intPow(a, b) }
+
+// VerifFormatInto runs formatInto once; argsNil selects the nil args slice used by %b recursion.
+func VerifFormatInto(format string, args []string, argsNil bool) (out string, consumed int, err error) {
+	var sb strings.Builder
+	if argsNil {
+		args = nil
+	}
+	consumed, err = formatInto(&sb, format, args)
+	return sb.String(), consumed, err
+}
+
+func VerifListEnviron(caseInsensitive bool, pairs ...string) Environ {
+	return listEnviron_(caseInsensitive, pairs...)
+}
+
+func VerifRemovePattern(str, pat string, fromEnd, shortest bool) string {
+	return removePattern(str, pat, fromEnd, shortest)
+}
+
+func VerifIndexedVal(v Variable, i int) (string, bool) { return v.indexedVal(i) }
+
+func VerifIndexedKeys(v Variable) []string { return v.indexedKeys() }
